@@ -652,9 +652,23 @@ fn hostile(vc: &str, f: &Field) -> u64 {
 fn put(b: &mut [u8], off: usize, width: usize, v: u64) {
     b[off..off + width].copy_from_slice(&v.to_le_bytes()[..width]);
 }
-fn pick<'a>(w: &'a Walk, sec: &str, cls: &str, k: u64) -> Option<&'a Field> {
+/// The k-th field of class `cls` in section `sec` ("*" = any).  With `group`, fields are first
+/// grouped by what they are (section + name without positions) and the group-th kind of field
+/// is taken, then its k-th occurrence: every decoder site is reached with few scripts.
+fn pick<'a>(w: &'a Walk, sec: &str, cls: &str, k: u64, group: Option<u64>) -> Option<&'a Field> {
     let m = |f: &&Field| (sec == "*" || f.sec == sec) && (cls == "*" || f.cls == cls);
     let mut c: Vec<&Field> = w.fields.iter().filter(m).collect();
+    if let (Some(g), false) = (group, c.is_empty()) {
+        let mut kinds: Vec<(&str, String)> = Vec::new();
+        for f in &c {
+            let id = (f.sec, leaf(&f.path));
+            if !kinds.contains(&id) {
+                kinds.push(id);
+            }
+        }
+        let want = kinds[(g % kinds.len() as u64) as usize].clone();
+        c.retain(|f| (f.sec, leaf(&f.path)) == want);
+    }
     if c.is_empty() {
         c = w.fields.iter().filter(|f| cls == "*" || f.cls == cls).collect();
     }
@@ -700,7 +714,7 @@ fn mutate(base: &[u8], w: &Walk, m: &J) -> (Vec<u8>, J) {
     match kind {
         "field" => {
             let vc = m["vc"].as_str().unwrap_or("0");
-            if let Some(f) = pick(w, m["sec"].as_str().unwrap_or("*"), m["cls"].as_str().unwrap_or("*"), k) {
+            if let Some(f) = pick(w, m["sec"].as_str().unwrap_or("*"), m["cls"].as_str().unwrap_or("*"), k, m["group"].as_u64()) {
                 let v = hostile(vc, f);
                 put(&mut b, f.off, f.width, v);
                 let fj = field_json(f, vc, v);
@@ -720,7 +734,7 @@ fn mutate(base: &[u8], w: &Walk, m: &J) -> (Vec<u8>, J) {
             for part in ["m1", "m2"] {
                 let q = &m[part];
                 let vc = q["vc"].as_str().unwrap_or("0");
-                if let Some(f) = pick(w, q["sec"].as_str().unwrap_or("*"), q["cls"].as_str().unwrap_or("*"), q["k"].as_u64().unwrap_or(0)) {
+                if let Some(f) = pick(w, q["sec"].as_str().unwrap_or("*"), q["cls"].as_str().unwrap_or("*"), q["k"].as_u64().unwrap_or(0), q["group"].as_u64()) {
                     let v = hostile(vc, f);
                     put(&mut b, f.off, f.width, v);
                     if f.sec == "HEADER" || f.sec == "SECTION_TABLE" {
@@ -997,11 +1011,15 @@ fn gen_mut(rng: &mut StdRng) -> J {
     let k = rng.gen_range(0..100_000u64);
     let k2 = rng.gen_range(0..100_000u64);
     match rng.gen_range(0..100) {
-        0..=27 => {
-            let v = if rng.gen_bool(0.7) { hot } else { vc };
-            json!({"kind": "field", "sec": "*", "cls": "count", "k": k, "vc": v})
+        0..=13 => {
+            let v = if rng.gen_bool(0.6) { hot } else { vc };
+            json!({"kind": "field", "sec": "*", "cls": "count", "group": k2 % 32, "k": k, "vc": v})
         }
-        28..=33 => json!({"kind": "field", "sec": sec, "cls": "count", "k": k, "vc": vc}),
+        14..=19 => json!({"kind": "field", "sec": sec, "cls": "count", "k": k, "vc": vc}),
+        20..=33 => {
+            let cls = ch(rng, &["index", "optindex", "id", "optid", "offset", "length", "jump", "tag", "size", "i64", "u32"]);
+            json!({"kind": "field", "sec": "*", "cls": cls, "group": k2 % 40, "k": k, "vc": vc})
+        }
         34..=50 => {
             let cls = ch(rng, &["index", "optindex", "id", "optid"]);
             json!({"kind": "field", "sec": sec, "cls": cls, "k": k, "vc": vc})
@@ -1067,9 +1085,11 @@ pub fn gen(args: &[String]) -> i32 {
         let p = &progs[0];
         let mut line = |m: J| o.line(&json!({"kind": "life", "from": "sweep", "prog": p, "mut": m}));
         let count_vcs: &[&str] = if sweep > 1 { &VCS } else { &["2^32-1", "0", "n-1"] };
-        for k in 0..200u64 {
-            for vc in count_vcs {
-                line(json!({"kind": "field", "sec": "*", "cls": "count", "k": k, "vc": vc}));
+        for group in 0..32u64 {
+            for k in 0..(if sweep > 1 { 8u64 } else { 3 }) {
+                for vc in count_vcs {
+                    line(json!({"kind": "field", "sec": "*", "cls": "count", "group": group, "k": k, "vc": vc}));
+                }
             }
         }
         for k in 0..30u64 {
@@ -1171,6 +1191,7 @@ fn child_main(scripts: &[J], from: usize) -> i32 {
         let loc = info.location().map(|l| format!("{}:{}", l.file(), l.line())).unwrap_or_default();
         let msg = info.payload().downcast_ref::<&str>().map(|s| s.to_string())
             .or_else(|| info.payload().downcast_ref::<String>().cloned()).unwrap_or_default();
+        eprintln!("panic: {msg} @ {loc}");
         *PANIC_MSG.lock().unwrap() = format!("{msg} @ {loc}");
     }));
     let mut c = Child { out: std::io::stdout() };
@@ -1320,12 +1341,59 @@ fn run_life(c: &mut Child, i: usize, sc: &J, cache: &mut Option<(String, String,
     c.begin(i, "Apply");
     let b2 = bytes.clone();
     let (res, detail, hot) = guarded(move || {
-        rt.apply_bytecode_bytes(&b2, None).map_err(|e| format!("{e:?}").chars().take(80).collect::<String>())?;
-        let r = rt.restart(trust_runtime::RestartMode::Warm);
-        let _ = rt.metadata_snapshot();
-        Ok(if r.is_ok() { "ok" } else { "err" })
+        // (1) the loader path: decode -> validate -> metadata -> images and tasks, then the
+        //     warm restart that follows a reload
+        let direct = rt.apply_bytecode_bytes(&b2, None).map_err(|e| format!("{e:?}").chars().take(80).collect::<String>());
+        let warm = if direct.is_ok() {
+            let r = rt.restart(trust_runtime::RestartMode::Warm);
+            let _ = rt.metadata_snapshot();
+            if r.is_ok() { "ok" } else { "err" }
+        } else {
+            "-"
+        };
+        // (2) hot reload: the same bytes sent as ResourceCommand::ReloadBytecode to a running
+        //     resource thread (paused first, so that no cycle of the reloaded tasks runs here)
+        //     The commands are queued before the start gate opens: the thread handles Pause and
+        //     the reload first and never runs a cycle, whatever the OS schedule.
+        use trust_runtime::scheduler::{ResourceCommand, ResourceRunner, StartGate, StdClock};
+        let gate = std::sync::Arc::new(StartGate::new());
+        let mut handle = ResourceRunner::new(rt, StdClock::new(), trust_runtime::value::Duration::from_millis(1))
+            .with_start_gate(gate.clone())
+            .spawn("c11-reload").map_err(|e| format!("TOOL: resource thread: {e:?}"))?;
+        let control = handle.control();
+        let (tx, rx) = std::sync::mpsc::channel();
+        let sent = control.send_command(ResourceCommand::Pause).and_then(|_| control.send_command(ResourceCommand::ReloadBytecode { bytes: b2.clone(), respond_to: tx }));
+        gate.open();
+        let answer = match sent {
+            Ok(()) => rx.recv_timeout(std::time::Duration::from_secs(60)),
+            Err(_) => Err(std::sync::mpsc::RecvTimeoutError::Disconnected),
+        };
+        handle.stop();
+        let reload = match answer {
+            Ok(Ok(_)) => "ok",
+            Ok(Err(_)) => "err",
+            Err(std::sync::mpsc::RecvTimeoutError::Timeout) => return Err("TOOL: no answer to ReloadBytecode within 60 s".to_string()),
+            Err(std::sync::mpsc::RecvTimeoutError::Disconnected) => {
+                // the resource thread is gone without answering: a panic while reloading if
+                // the thread panicked, otherwise it merely ended (not judged)
+                if handle.join().is_err() {
+                    panic!("resource thread panicked in ReloadBytecode: {}", PANIC_MSG.lock().map(|m| m.clone()).unwrap_or_default());
+                }
+                "no-answer"
+            }
+        };
+        let _ = handle.join();
+        match direct {
+            Ok(()) => Ok((warm, reload)),
+            Err(e) => Err(format!("{e} [reload {reload}]")),
+        }
     });
-    c.line(&json!({"a": "Apply", "res": res, "detail": detail, "hot": hot.unwrap_or("-"), "img": clamp(imgb), "validated": vres == "ok"}));
+    if res == "err" && detail.starts_with("TOOL:") {
+        c.line(&json!({"a": "ToolError", "i": i, "why": detail}));
+        return;
+    }
+    let (warm, reload) = hot.unwrap_or(("-", "-"));
+    c.line(&json!({"a": "Apply", "res": res, "detail": detail, "hot": warm, "reload": reload, "img": clamp(imgb), "validated": vres == "ok"}));
 }
 
 // ------------------------------------------------------------------ running (parent)
